@@ -251,6 +251,15 @@ func multiline(n *recipe.Node) bool {
 		if x != nil && x.Kind == recipe.KDict && len(x.Pairs) > 1 {
 			m = true
 		}
+		if x != nil {
+			for _, cl := range x.Calls {
+				for _, st := range cl.Str {
+					if strings.Contains(string(st), "\n") {
+						m = true
+					}
+				}
+			}
+		}
 	})
 	return m
 }
@@ -353,12 +362,20 @@ type fillCase struct {
 	SameFile bool   `json:"samefile,omitempty"`
 	Extend   string `json:"extend,omitempty"`
 	ExtendAt int    `json:"extendat,omitempty"`
+	// PanicFirst (hole on the value side): the value is at first one that Lit rejects, so the early
+	// renders panic (recovered, as a caller would); the caller then puts a good value into its map
+	PanicFirst bool `json:"panicfirst,omitempty"`
 }
 
 func checkFill(c fillCase) error {
 	var grown *jen.Statement
+	var theDict jen.Dict
+	var holeKey jen.Code
 	build := func(filled bool) (*jen.Statement, *jen.Statement) {
 		d := jen.Dict{}
+		if !filled {
+			theDict = d
+		}
 		for i, k := range c.Keys {
 			key := jen.Id(k)
 			if c.Extend != "" && i == c.ExtendAt%len(c.Keys) {
@@ -382,7 +399,14 @@ func checkFill(c fillCase) error {
 			}
 			d[hole] = jen.Lit(4242)
 		} else {
-			d[jen.Id(c.HoleKey)] = hole
+			k := jen.Id(c.HoleKey)
+			d[k] = hole
+			if !filled {
+				holeKey = k
+				if c.PanicFirst {
+					d[k] = jen.Lit(struct{ A int }{1})
+				}
+			}
 		}
 		return jen.Var().Id("_").Op("=").Id("T").Values(d), hole
 	}
@@ -399,17 +423,22 @@ func checkFill(c fillCase) error {
 			f.Add(s)
 		}
 		buf := &bytes.Buffer{}
-		err := f.Render(buf)
+		var err error
+		if perr := hx.Safe(func() error { err = f.Render(buf); return nil }); perr != nil {
+			return "", perr
+		}
 		return buf.String(), err
 	}
 	st, hole := build(false)
 	for i := 0; i < c.Renders; i++ {
-		if _, err := render(st); err != nil {
+		if _, err := render(st); err != nil && !(c.PanicFirst && c.HoleSide == "value") {
 			return err
 		}
 	}
 	if c.HoleSide == "key" {
 		hole.Id(c.HoleKey)
+	} else if c.PanicFirst {
+		theDict[holeKey] = jen.Null().Lit(4242)
 	} else {
 		hole.Lit(4242)
 	}
@@ -427,7 +456,7 @@ func checkFill(c fillCase) error {
 		return err
 	}
 	if got != want {
-		return fmt.Errorf("after %d render(s) (one File for all renders: %v) a pair whose %s was a Null() placeholder was filled in (and a key continued in place with .%s); the Dict now renders\n%s\nbut a Dict built that way from the start renders\n%s", c.Renders, c.SameFile, c.HoleSide, c.Extend, got, want)
+		return fmt.Errorf("after %d render(s) (one File for all renders: %v) a pair whose %s was a Null() placeholder (or a value Lit rejects: %v) was filled in (and a key continued in place with .%s); the Dict now renders\n%s\nbut a Dict built that way from the start renders\n%s", c.Renders, c.SameFile, c.HoleSide, c.PanicFirst, c.Extend, got, want)
 	}
 	return nil
 }
@@ -499,7 +528,13 @@ func genCase(t *rapid.T) Case {
 			p.Key = genKey(t, 0)
 		}
 		v := recipe.Lit(1000 + i)
-		switch rapid.IntRange(0, 5).Draw(t, "valkind") {
+		switch rapid.IntRange(0, 8).Draw(t, "valkind") {
+		case 6: // a block comment behind the value, with something that looks like a line comment inside
+			v = recipe.Lit(1000 + i).C("Comment", "/* see http://example.com/x */")
+		case 7: // a string holding //
+			v = recipe.Id("f").C("Call", recipe.Lit(1000+i), recipe.Lit("http://example.com//x"))
+		case 8: // a multi-line raw string whose last line holds //
+			v = recipe.Id("g").C("Call", recipe.Lit(1000+i), recipe.Id("`usage\nsee https://example.com`"))
 		case 0:
 			v = recipe.S().C("Index").C("Int").C("Values", recipe.Lit(1000+i))
 		case 1:
@@ -620,6 +655,10 @@ func TestC16(t *testing.T) {
 			}
 		}
 		c.SameFile = rapid.Bool().Draw(rt, "samefile")
+		if c.HoleSide == "value" && rapid.IntRange(0, 2).Draw(rt, "panicfirst") == 0 {
+			c.PanicFirst = true
+			r.Class("fill_after_render:after_a_panicking_render")
+		}
 		if len(c.Keys) > 0 && rapid.Bool().Draw(rt, "extend") {
 			c.Extend = rapid.SampledFrom([]string{"Zed", "a", "m", "_", "x1"}).Draw(rt, "ext")
 			c.ExtendAt = rapid.IntRange(0, len(c.Keys)-1).Draw(rt, "extat")
